@@ -22,6 +22,16 @@ pub fn panic_prop_of(scenario: &str) -> &'static str {
     all_scenarios().into_iter().find(|s| s.name() == scenario).map(|s| s.panic_prop()).unwrap_or("C03")
 }
 
+/// the 'static id of a claimed property (violations carry &'static str)
+pub fn static_prop(p: &str) -> &'static str {
+    for id in ["C02", "C03", "C04", "C05", "C07", "C09", "C12", "C14", "C18"] {
+        if id == p {
+            return id;
+        }
+    }
+    "C03"
+}
+
 pub fn all_scenarios() -> Vec<&'static dyn Scenario> {
     vec![&CHUNK, &SOUP, &FAULT, &SKIP, &NS, &NEST, &DE, &DYN, &PIPE, &CORPUS, &CORPUSFAULT]
 }
